@@ -402,6 +402,74 @@ func TestVerif_C08_Primitives(t *testing.T) {
 	})
 }
 
+// Scalars just above the group order, every one of them: k = n + delta behaves like delta as a MULTIPLE but not as a BIT PATTERN, and
+// the fixed-window schedules meet their exceptional cases there (an addend equal to the accumulator, partial sums that wrap to small
+// multiples) — single values among 2^256 that no sampling finds. The trace of each must equal that of an ordinary scalar.
+func TestVerif_C08_NearOrderSweep(t *testing.T) {
+	rec := stats.Get("C08", "near-order-sweep")
+	t.Cleanup(stats.FlushAll)
+	if !c08LoadSites(t) {
+		rec.Skipped("ctrace_sites.json not found: the instrumenter did not run; nothing judged")
+		t.Skip("no instrumentation")
+	}
+	hi := 1024
+	if vt.Thorough() {
+		hi = 8192
+	}
+	rec.Exhaustive(true)
+	rec.Rule(fmt.Sprintf("complete enumeration: secret scalars n+delta for delta in -64..%d (32 bytes), and 33-byte scalars 2n+delta, 16n+delta for the variable-point routine; primitives ScalarBaseMult(k), ScalarMult(G,k), ScalarMult([m]G,k). Oracle: block sequence, index sequence and external-callee set equal those of a fixed ordinary scalar of the same length. Every case non-trivial; distinct by (primitive, scalar).", hi-1))
+	G := internal.NewSM2Generator()
+	mG, _ := internal.NewSM2Point().SetBytes(sm2ref.Encode(sm2ref.Mul(big.NewInt(0x1234567), sm2ref.G)))
+	prims := []*c08Prim{
+		{"P1:ScalarBaseMult", func(k []byte) string { internal.ScalarBaseMult(k); return "" }},
+		{"P2:ScalarMult(G)", func(k []byte) string { internal.ScalarMult(G, k); return "" }},
+		{"P2:ScalarMult([m]G)", func(k []byte) string { internal.ScalarMult(mG, k); return "" }},
+	}
+	si, sn := vt.Shard()
+	ordinary := bytes.Repeat([]byte{0x5b, 0xc7, 0x19}, 11)
+	for pi, p := range prims {
+		for _, ln := range []int{32, 33} {
+			if ln == 33 && pi == 0 {
+				continue // the base-point routine takes 32 bytes
+			}
+			refTr, _, pan := c08Trace(p, ordinary[:ln], false)
+			if pan != nil {
+				continue
+			}
+			bases := []*big.Int{gen.N}
+			if ln == 33 {
+				bases = []*big.Int{new(big.Int).Lsh(gen.N, 1), new(big.Int).Lsh(gen.N, 4)}
+			}
+			for _, base := range bases {
+				for d := -64; d < hi; d++ {
+					if (d+64)%sn != si {
+						continue
+					}
+					kv := new(big.Int).Add(base, big.NewInt(int64(d)))
+					k := kv.Bytes()
+					if len(k) > ln {
+						continue
+					}
+					k = append(make([]byte, ln-len(k)), k...)
+					tr, _, pan := c08Trace(p, k, false)
+					rec.Enumerated(1, "prim:"+p.name)
+					if pan != nil {
+						vt.Fail(t, rec, "C08:"+p.name+":panic", "%s panicked on k=%x: %v", p.name, k, pan)
+						return
+					}
+					if tr.BlockHash != refTr.BlockHash || tr.Blocks != refTr.Blocks || tr.IndexHash != refTr.IndexHash || tr.Indices != refTr.Indices {
+						a, _, _ := c08Trace(p, ordinary[:ln], true)
+						b, _, _ := c08Trace(p, k, true)
+						vt.Fail(t, rec, "C08:"+p.name+":near-order", "%s: the trace for the scalar %x (the group order times %d, plus %d) differs from the trace of an ordinary %d-byte scalar (%d vs %d block events)\nfirst divergence: %s", p.name, k, new(big.Int).Div(base, gen.N).Int64(), d, ln, tr.Blocks, refTr.Blocks, c08FirstDivergence(a, b))
+						return
+					}
+				}
+			}
+		}
+	}
+	rec.Sample("near-order", map[string]interface{}{"deltas": fmt.Sprintf("-64..%d", hi-1)})
+}
+
 // Entry points: which inversion routines are reached with secret-derived operands.
 func TestVerif_C08_EntryPoints(t *testing.T) {
 	rec := stats.Get("C08", "entrypoints")
